@@ -544,6 +544,47 @@ pub fn main(args: &[String]) {
                 }
             }
         }
+        Some("biggvar") => {
+            // a variable font whose kept glyphs carry more gvar data than short offsets reach (131070 bytes) while the glyphs
+            // that come first in the font carry almost none: the subset must choose its offset format from the data it keeps
+            use font_types::{F2Dot14, Fixed, NameId};
+            use read_fonts::tables::glyf::CurvePoint;
+            use write_fonts::tables::fvar::{AxisInstanceArrays, Fvar, VariationAxisRecord};
+            use write_fonts::tables::glyf::{Bbox, Contour, Glyph, SimpleGlyph};
+            use write_fonts::tables::gvar::{GlyphDelta, GlyphDeltas, GlyphVariations, Gvar, Tent};
+            let (nsmall, nbig, npts) = (24usize, 22usize, 520usize);
+            let mut rng = Rng::new(0xb166);
+            let mut glyphs = vec![Glyph::Empty];
+            let mut vars = vec![GlyphVariations::new(GlyphId::new(0), vec![])];
+            for g in 1..(1 + nsmall + nbig) {
+                let n = if g <= nsmall { 3 } else { npts };
+                let pts: Vec<CurvePoint> = (0..n).map(|i| CurvePoint::new((i as i16) * 3, if i % 2 == 0 { 0 } else { 40 + (i as i16 % 50) + g as i16 }, true)).collect();
+                glyphs.push(Glyph::Simple(SimpleGlyph { bbox: Bbox { x_min: 0, y_min: 0, x_max: (n as i16) * 3, y_max: 200 }, contours: vec![Contour::from(pts)], instructions: vec![] }));
+                let tuples: Vec<GlyphDeltas> = [16384i16, -16384, 8192].iter().map(|peak| {
+                    let deltas: Vec<GlyphDelta> = (0..n + 4).map(|i| if i >= n { GlyphDelta::required(0, 0) } else { GlyphDelta::required(rng.range(-300, 300) as i16 * 2 + 1, rng.range(-300, 300) as i16 * 2 + 1) }).collect();
+                    GlyphDeltas::new(vec![Tent::new(F2Dot14::from_bits(*peak), None)], deltas)
+                }).collect();
+                vars.push(GlyphVariations::new(GlyphId::new(g as u32), tuples));
+            }
+            let gvar = write_fonts::dump_table(&Gvar::new(vars, 1).expect("gvar")).expect("gvar bytes");
+            rep.add("biggvar_table_bytes", gvar.len() as u64);
+            let fvar = Fvar::new(AxisInstanceArrays::new(vec![VariationAxisRecord::new(Tag::new(b"wght"), Fixed::from_i32(-1), Fixed::from_i32(0), Fixed::from_i32(1), 0, NameId::new(256))], vec![]));
+            let n_all = glyphs.len();
+            // cmap: glyph g <-> U+0100 + g
+            let cmap = write_fonts::tables::cmap::Cmap::from_mappings((1..n_all as u32).map(|g| (char::from_u32(0x100 + g).unwrap(), GlyphId::new(g)))).expect("cmap");
+            let opts = crate::synth::SynthOpts { metrics: vec![(600, 0)], extra: vec![(Tag::new(b"gvar"), gvar), (Tag::new(b"fvar"), write_fonts::dump_table(&fvar).unwrap()), (Tag::new(b"cmap"), write_fonts::dump_table(&cmap).unwrap())], ..Default::default() };
+            let font = crate::synth::truetype_font(&glyphs, &opts).expect("big gvar font");
+            for (what, gids) in [("the glyphs with the large variation data", ((1 + nsmall) as u32..n_all as u32).collect::<Vec<u32>>()), ("the glyphs with the small variation data", (1..=nsmall as u32).collect()), ("every second glyph", (1..n_all as u32).step_by(2).collect())] {
+                for retain in [false, true] {
+                    rep.evaluations += 1;
+                    let r = Request { gids: gids.clone(), cps: vec![], retain, notdef: true, no_hinting: false, overlaps: false };
+                    if let Some(o) = run_subset(&format!("synthetic-big-gvar.ttf ({what})"), &font, &r, &mut rng, None, &mut rep) {
+                        ev.push(o.event.clone());
+                        rep.distinct += 1;
+                    }
+                }
+            }
+        }
         Some("inspect") => {
             let only = arg_after(args, "--font").expect("--font");
             for (name, bytes) in corpus() {
